@@ -414,7 +414,11 @@ def test_dtype(case, note):
     fd = mkfd(shape, [1.0, 1.0, 1.0], p, b)
     fd.inverse_dx, fd.inverse_dy, fd.inverse_dz = [1.0 / d for d in dxs]
     f, _ = field(shape, dxs, (0.3, -0.2, 0.1), case["modes"], case["poly"])
-    fint = np.round(50 * f).astype(np.int64)
+    # integer samples of the field, bounded by 1e6 so that no sum or
+    # difference of a few of them leaves the int32 range (integer overflow
+    # is numpy's arithmetic, not a property of the operators)
+    fint = np.round(min(50.0, 1e6 / (float(np.max(np.abs(f))) + 1e-300))
+                    * f).astype(np.int64)
     ops = [fd.d3x, fd.d3y, fd.d3z]
     for dt in (np.int64, np.int32, np.float32):
         a = fint.astype(dt) if dt != np.float32 else f.astype(np.float32)
